@@ -459,6 +459,19 @@ func (c *Conn) Close() error {
 	return nil
 }
 
+// CloseWrite half-closes the connection: the peer sees EOF after draining,
+// this end can still read (QUIC stream FIN).
+func (c *Conn) CloseWrite() error {
+	simrt.Yield(siteClose)
+	if c.closed {
+		return &net.OpError{Op: "close", Net: "sim", Err: net.ErrClosed}
+	}
+	c.wr.wclosed = true
+	c.wr.signal()
+	c.Net.logf(c, "closewrite", 0, nil)
+	return nil
+}
+
 // ---- server-side helpers (harness tasks) ----
 
 // WriteMsg writes one DNS message (adding the length header on streams) and
